@@ -14,6 +14,8 @@ type Env struct {
 	prefix  []int
 	Choices []int
 	Arity   []int
+	Kind    []int
+	Free    []bool
 }
 
 // Choose returns the answer for a choice point with n alternatives.
@@ -93,6 +95,115 @@ func Explore(bound int, stop func() bool, run func(env *Env)) (execs, points int
 							p[i] = alt
 							kids = append(kids, devTask{p, t.devs + 1})
 						}
+					}
+				}
+				mu.Lock()
+				stack = append(stack, kids...)
+				active--
+				if stop != nil && stop() {
+					stopped = true
+				}
+				mu.Unlock()
+				cond.Broadcast()
+			}
+		}()
+	}
+	wg.Wait()
+	return execs, points, !stopped
+}
+
+// ---------------------------------------------------------------------------------------
+// Choice points of several kinds with one deviation bound per kind (used by the scheduler
+// explorer: kind 0 = preemptions, kind 1 = data choices). A point marked free costs nothing
+// for a non-default answer (e.g. switching away from a finished thread is not a preemption).
+
+// ChooseK is Choose with a kind and a free flag.
+func (e *Env) ChooseK(n, kind int, free bool) int {
+	c := e.Choose(n)
+	e.Kind = append(e.Kind, kind)
+	e.Free = append(e.Free, free)
+	return c
+}
+
+type devTaskK struct {
+	prefix []int
+	cost   []int
+}
+
+// ExploreK explores every choice sequence whose number of non-free deviations of each kind
+// stays within bounds[kind]. All choice points must be made through ChooseK.
+func ExploreK(bounds []int, stop func() bool, run func(env *Env)) (execs, points int64, complete bool) {
+	return ExploreKShard(bounds, 0, 1, stop, run)
+}
+
+// ExploreKShard explores the shard-th of nshards slices of the space so that several processes
+// can share one exploration: executions with at most one deviation are run by every shard (they
+// are needed to discover the choice points) but counted by shard 0 only; executions with two
+// deviations are dealt to the shards by a hash of their choice prefix, and each shard explores
+// the subtrees below its own ones completely.
+func ExploreKShard(bounds []int, shard, nshards int, stop func() bool, run func(env *Env)) (execs, points int64, complete bool) {
+	var mu sync.Mutex
+	cond := sync.NewCond(&mu)
+	stack := []devTaskK{{nil, make([]int, len(bounds))}}
+	active := 0
+	stopped := false
+	w := runtime.GOMAXPROCS(0)
+	var wg sync.WaitGroup
+	for k := 0; k < w; k++ {
+		wg.Add(1)
+		go func() {
+			defer wg.Done()
+			for {
+				mu.Lock()
+				for len(stack) == 0 && active > 0 && !stopped {
+					cond.Wait()
+				}
+				if stopped || (len(stack) == 0 && active == 0) {
+					mu.Unlock()
+					cond.Broadcast()
+					return
+				}
+				t := stack[len(stack)-1]
+				stack = stack[:len(stack)-1]
+				active++
+				mu.Unlock()
+
+				env := &Env{prefix: t.prefix}
+				run(env)
+				level := 0
+				for _, c := range t.prefix {
+					if c != 0 {
+						level++
+					}
+				}
+				if level >= 2 || shard == 0 {
+					atomic.AddInt64(&execs, 1)
+					atomic.AddInt64(&points, int64(len(env.Choices)-len(t.prefix)))
+				}
+				var kids []devTaskK
+				for i := len(t.prefix); i < len(env.Choices); i++ {
+					kind := env.Kind[i]
+					cost := append([]int{}, t.cost...)
+					if !env.Free[i] {
+						cost[kind]++
+					}
+					if cost[kind] > bounds[kind] {
+						continue
+					}
+					for alt := 1; alt < env.Arity[i]; alt++ {
+						p := make([]int, i+1)
+						copy(p, env.Choices[:i])
+						p[i] = alt
+						if level == 1 && nshards > 1 {
+							h := uint32(2166136261)
+							for _, c := range p {
+								h = (h ^ uint32(c)) * 16777619
+							}
+							if int(h>>8)%nshards != shard {
+								continue
+							}
+						}
+						kids = append(kids, devTaskK{p, cost})
 					}
 				}
 				mu.Lock()
